@@ -14,7 +14,7 @@ RULE = ("seeded lint-clean circuits x 6-14 partial-assignment queries; distinct 
         "fingerprint; non-trivial = at least one SAT and the circuit has >= 2 gates")
 PROBES = ["parity3+", "auxlike_with_parity", "unsat_answer", "sat_internal_assumption", "cyclic_0_stable",
           "cyclic_2+_stable", "bb", "multi1"]
-ASSUMPTIONS = ["no 'x' constants (the encoder rejects them)", "<= 8 startpoints, <= 22 nodes acyclic, <= 14 nodes cyclic"]
+ASSUMPTIONS = ["no 'x' constants (the encoder rejects them)", "<= 10 startpoints (CNF model set compared exhaustively up to 8), <= 22 nodes acyclic, <= 14 nodes cyclic, gates up to 11 operands"]
 
 
 def gen(rng, tier):
@@ -24,6 +24,10 @@ def gen(rng, tier):
     if cyclic:
         net = G.gen_net(rng, n_inputs=(1, 3), n_gates=(2, 8), types=G.swarm_types(rng), max_arity=rng.randint(2, 4),
                         constants=0.2, bbs=0, cyclic=True, name_style=style, parity_bias=0.3 if parity else 0.0)
+    elif rng.random() < 0.06:
+        # wide gates: a handful of gates with up to 11 operands (chain length, clause width, two-digit positions)
+        net = G.gen_net(rng, n_inputs=(8, 10), n_gates=(1, 3), types=G.swarm_types(rng), max_arity=11, constants=0.1,
+                        bbs=0, name_style=style, parity_bias=0.5)
     elif tier == "thorough" and rng.random() < 0.3:
         net = G.gen_net(rng, n_inputs=(4, 8), n_gates=(8, 13), types=G.swarm_types(rng), max_arity=rng.randint(2, 7),
                         constants=0.3, bbs=0, name_style=style, parity_bias=0.4 if parity else 0.0)
@@ -72,7 +76,7 @@ def run(case, ctx):
     names = sorted(nodes)
     cyc = ref.is_cyclic(net)
     free = ref.free_nodes(net)
-    if len(names) > (14 if cyc else 22) or len(free) > 8:
+    if len(names) > (14 if cyc else 22) or len(free) > 10:
         raise Skip("too large")
     for f in G.features(net):
         ctx.probe(f)
@@ -118,7 +122,7 @@ def run(case, ctx):
     ctx.stats["cnf_vars"] += nv
     if len(set(ids.values())) != len(ids):
         ctx.violate("C01.var_alias", f"two circuit nodes share a CNF variable: {ids}", sig0)
-    if nv <= 70:
+    if nv <= 70 and len(free) <= 8:
         proj = [ids[n] for n in names]
         models = ref.enumerate_projected(nv, clauses, proj)
         got = set()
